@@ -21,9 +21,10 @@ RULE = ('Generated legacy CSV rule files accepted by load_merchant_rules (header
         'load_csv_as_engine; merchant/category/subcategory/tags must agree on every transaction, and side A is anchored to the '
         'documented CSV semantics (regex search AND modifiers). Non-trivial = >=1 rule matches and the file has a backslash escape, a '
         'modifier or tags; distinct by hash.')
-ASSUMPTIONS = ['merchant/category cells have no surrounding blanks and tags no commas (not representable in the .rules format)',
+ASSUMPTIONS = ['names may carry surrounding blanks (both sides read them stripped since fix 5927850)',
                'patterns that the CSV side misroutes to the expression parser (known finding D-csv-heuristic) and [date:lastNdays] '
-               '(known finding D-csv-relative: not expressible in the rule language) are excluded by construction and counted']
+               '(known finding D-csv-relative: not expressible in the rule language) and tags holding a comma / brace / unbalanced parenthesis (known finding D-csv-tag-punctuation) are '
+               'excluded by construction and counted']
 REQUIRED_CLASSES = ['backslash_escape', 'quote_in_pattern', 'amount_eq_boundary', 'modifier_combo', 'tag_only_row', 'empty_row', 'missing_date_with_date_modifier']
 
 
@@ -67,6 +68,8 @@ def classify_known(r):
         return 'csv_pattern_looks_like_expression(D-csv-heuristic)'
     if any(m.get('op') == 'rel' for m in r['mods']):
         return 'relative_date_modifier(D-csv-relative)'
+    if any(',' in t or '{' in t or '}' in t or t.count('(') != t.count(')') for t in r['tags']):
+        return 'tag_with_comma_brace_or_unbalanced_parenthesis(D-csv-tag-punctuation)'
     return None
 
 
